@@ -189,7 +189,9 @@ func fkLookups(p *forkable.Forkable, qh, qi []uint64) *fkLook {
 		l.AtPanic = append(l.AtPanic, panicked)
 	}
 	for _, id := range qi {
-		l.ByHash = append(l.ByHash, p.GetBlockByHash(fkIDStr(id)) != nil)
+		// W1: "returns by hash" = returns the block WITH THAT HASH (a non-nil answer carrying another id is not a find)
+		b := p.GetBlockByHash(fkIDStr(id))
+		l.ByHash = append(l.ByHash, b != nil && b.Id == fkIDStr(id))
 	}
 	return l
 }
@@ -254,8 +256,10 @@ func fkRun(in *fkInput) (*fkObs, *forkable.Forkable) {
 			evs = []fkEvent{}
 		}
 		st.Events = evs
-		if num, id, _, lib, err := p.HeadInfo(); err == nil {
-			st.HeadOK = true
+		if num, id, tm, lib, err := p.HeadInfo(); err == nil {
+			// W1: the head TIME is part of the head information; fkPB derives every block's timestamp from its number, so a
+			// head time that is not the head block's is projected as "no head information" (model mismatch + C18 head clause)
+			st.HeadOK = tm.Equal(time.Unix(1600000000+int64(num%100000), 0))
 			st.Head = fkRef{fkIDNum(id), num}
 			st.HeadLib = lib
 		}
